@@ -368,6 +368,85 @@ func ruleErrFlow(c *Ctx, r *Reporter) {
 					}
 				}
 			}
+			// the "same request" shortcut compares identifiers; 0 is the identifier of every status that was
+			// not made by StatusPending() (decoded from YAML/JSON, a zero StatusSet) and identifies nothing
+			{
+				isIDField := func(v ssa.Value) bool {
+					if a, ok := isLoad(v); ok {
+						if fa, ok := a.(*ssa.FieldAddr); ok {
+							if tn, f, _ := fieldOf(fa); (tn == "Status" && f == "ID") || (tn == "opResult" && f == "id") {
+								return true
+							}
+						}
+					}
+					if fl, ok := v.(*ssa.Field); ok {
+						if tn, f, _ := fieldOf(fl); (tn == "Status" && f == "ID") || (tn == "opResult" && f == "id") {
+							return true
+						}
+					}
+					return false
+				}
+				nonZeroFact := func(f edgeFact) bool {
+					bo, ok := f.Cond.(*ssa.BinOp)
+					if !ok {
+						return false
+					}
+					var other ssa.Value
+					switch {
+					case isIDField(bo.X):
+						other = bo.Y
+					case isIDField(bo.Y):
+						other = bo.X
+					default:
+						return false
+					}
+					if k, ok := constInt(other); !ok || k != 0 {
+						return false
+					}
+					switch bo.Op {
+					case token.NEQ, token.GTR, token.LSS:
+						return f.Val
+					case token.EQL:
+						return !f.Val
+					}
+					return false
+				}
+				nEq := 0
+				for _, ia := range allInstrs(cs) {
+					bo, ok := ia.In.(*ssa.BinOp)
+					if !ok || bo.Op != token.EQL || !isIDField(bo.X) || !isIDField(bo.Y) {
+						continue
+					}
+					nEq++
+					guarded := false
+					for _, f := range factsAt(bo.Block()) {
+						if nonZeroFact(f) {
+							guarded = true
+						}
+					}
+					// or tested right after, on the equal edge
+					if !guarded {
+						for _, ib := range allInstrs(cs) {
+							nz, ok := ib.In.(*ssa.BinOp)
+							if !ok || nz == bo {
+								continue
+							}
+							if !nonZeroFact(edgeFact{Cond: nz, Val: true}) && !nonZeroFact(edgeFact{Cond: nz, Val: false}) {
+								continue
+							}
+							for _, f := range factsAt(nz.Block()) {
+								if f.Cond == ssa.Value(bo) && f.Val {
+									guarded = true
+								}
+							}
+						}
+					}
+					r.checkP([]string{"C15"}, guarded, fmt.Sprintf("reconciler.(incremental).commitStatus|the same-request shortcut needs a real identifier#%d", nEq), c.posStr(instrPos(bo)), "the identifiers are compared only when they are not 0", "the fallback write treats equal identifiers as 'only the status changed' even when both are 0 - the identifier of every status not made by StatusPending() (`kind: Pending` decoded from YAML/JSON, a zero StatusSet): when such an object is replaced by a new version while Update runs, the stale result is written onto the new version, which is marked Done without ever having been passed to Update")
+				}
+				if nEq == 0 {
+					r.note("commitStatus compares no request identifiers (no same-request shortcut)")
+				}
+			}
 			r.checkP([]string{"C16", "C14"}, refresh, "reconciler.(incremental).commitStatus|the result of a refresh is applied while the object still shows the Refreshing request", c.posStr(cs.Pos()), "the fallback write accepts the Refreshing request (same id) like the Pending one", "when the status commit of a refresh loses the revision check to an unrelated write, the result is dropped because the fallback only recognises a Pending request: a failed refresh gets no Error status and no queued retry, the object (still Refreshing) comes straight back through the change stream and the failed operation is attempted again at once, without the minimum backoff")
 			r.checkP([]string{"C14", "C15"}, applied, "reconciler.(incremental).commitStatus|a retry's result is applied while the object still shows this reconciler's Error", c.posStr(cs.Pos()), "the fallback write is also taken when the current status is the Error written for the previous attempt", "when the status commit of a retry loses the revision check to an unrelated write (another reconciler's status), the result is dropped although the object still carries this reconciler's Error: the retry was already forgotten (success) or is not re-queued (failure), objects in Error are skipped by the change stream, so the object stays in Error for ever")
 		}
@@ -392,7 +471,73 @@ func ruleErrFlow(c *Ctx, r *Reporter) {
 			}
 			good = good && fromTop
 		}
-		r.check(good, "reconciler.(incremental).processRetries|popped item is processed", c.posStr(pr.Pos()), "Pop() is always followed by processSingle of the item that was at the top", "an item is popped from the retry queue without being processed: the failed object is forgotten")
+		// the retries are not at the mercy of the change stream: a round the changes filled up to
+		// IncrementalRoundSize still looks at the retry queue (what is left of the round, but at least one)
+		if len(tops) == 1 {
+			var walk func(v ssa.Value, seen map[ssa.Value]bool) (rs, nr, clamped bool)
+			walk = func(v ssa.Value, seen map[ssa.Value]bool) (rs, nr, clamped bool) {
+				if seen[v] || len(seen) > 64 {
+					return
+				}
+				seen[v] = true
+				if a, ok := isLoad(v); ok {
+					if _, f, ok := fieldOf(a); ok {
+						return f == "IncrementalRoundSize", f == "numReconciled", false
+					}
+					if al, ok := a.(*ssa.Alloc); ok {
+						for _, st := range storesTo(pr, al) {
+							r2, n2, c2 := walk(st.Val, seen)
+							rs, nr, clamped = rs || r2, nr || n2, clamped || c2
+						}
+					}
+					return
+				}
+				switch x := v.(type) {
+				case *ssa.BinOp:
+					r1, n1, c1 := walk(x.X, seen)
+					r2, n2, c2 := walk(x.Y, seen)
+					return r1 || r2, n1 || n2, c1 || c2
+				case *ssa.Convert:
+					return walk(x.X, seen)
+				case *ssa.Phi:
+					for _, e := range x.Edges {
+						// `if budget < 1 { budget = 1 }`: a positive constant merged in is a clamp
+						if k, ok := constInt(e); ok && k > 0 {
+							clamped = true
+							continue
+						}
+						r2, n2, c2 := walk(e, seen)
+						rs, nr, clamped = rs || r2, nr || n2, clamped || c2
+					}
+				case *ssa.Call:
+					if b, ok := x.Call.Value.(*ssa.Builtin); ok && b.Name() == "max" {
+						for _, a := range x.Call.Args {
+							if k, ok := constInt(a); ok && k > 0 {
+								return false, false, true
+							}
+						}
+						for _, a := range x.Call.Args {
+							r2, n2, c2 := walk(a, seen)
+							rs, nr, clamped = rs || r2, nr || n2, clamped || c2
+						}
+					}
+				}
+				return
+			}
+			starved := false
+			for _, f := range factsAt(tops[0].Block()) {
+				bo, ok := f.Cond.(*ssa.BinOp)
+				if !ok {
+					continue
+				}
+				rs, nr, clamped := walk(bo, map[ssa.Value]bool{})
+				if rs && nr && !clamped {
+					starved = true
+				}
+			}
+			r.checkP([]string{"C14"}, !starved, "reconciler.(incremental).processRetries|a round filled by changes still serves a due retry", c.posStr(instrPos(tops[0])), "the look at the retry queue does not depend on numReconciled < IncrementalRoundSize alone", "the retry queue is only looked at with what the changes left of the round (numReconciled < IncrementalRoundSize): while the change stream fills every round - objects marked for refresh faster than they are reconciled do that without any user activity - a failed Update or Delete is never retried, although operations stopped failing")
+		}
+		r.check(good, "reconciler.(incremental).processRetries|popped item is processed",c.posStr(pr.Pos()), "Pop() is always followed by processSingle of the item that was at the top", "an item is popped from the retry queue without being processed: the failed object is forgotten")
 	} else {
 		r.anchorMissing("reconciler.(incremental).processRetries")
 	}
@@ -769,6 +914,172 @@ func ruleRetryBook(c *Ctx, r *Reporter) {
 		r.checkP([]string{"C16"}, good, "reconciler.(progressTracker).update|low watermark published regardless of the revision", c.posStr(up.Pos()), "every call compares and stores the retry low watermark", "an update can return without looking at the retry low watermark (e.g. when the round's revision did not advance): after a retry-only round WaitUntilReconciled keeps reporting a stale non-zero watermark")
 	} else {
 		r.anchorMissing("reconciler.(progressTracker).update")
+	}
+	// a round cut short by IncrementalRoundSize is told apart from one that reached the end of its
+	// stream: the objects left over may carry changes older than the last revision taken (a status
+	// write by another reconciler of the same object gives it a new revision and moves it behind),
+	// so the revision the round stopped at must not be published as "everything up to here attempted"
+	{
+		var cutField string
+		for _, name := range []string{"single", "batch"} {
+			fn := c.fnByName("reconciler.(incremental)." + name)
+			if fn == nil {
+				continue // reported by ERR-FLOW
+			}
+			var cut *ssa.BinOp
+			for _, f := range withAnon(fn) {
+				for _, ia := range allInstrs(f) {
+					bo, ok := ia.In.(*ssa.BinOp)
+					if !ok {
+						continue
+					}
+					switch bo.Op {
+					case token.GEQ, token.GTR, token.LEQ, token.LSS, token.EQL:
+					default:
+						continue
+					}
+					isRS := func(v ssa.Value) bool {
+						a, ok := isLoad(v)
+						if !ok {
+							return false
+						}
+						_, f, ok := fieldOf(a)
+						return ok && f == "IncrementalRoundSize"
+					}
+					if isRS(bo.X) || isRS(bo.Y) {
+						cut = bo
+					}
+				}
+			}
+			key := "reconciler.(incremental)." + name + "|a round cut short by the round size is marked as such"
+			if cut == nil {
+				r.undecidedP([]string{"C16"}, key, c.posStr(fn.Pos()), "no comparison with IncrementalRoundSize found")
+				continue
+			}
+			// the edge taken when the limit is reached
+			var iff *ssa.If
+			for _, ref := range *cut.Referrers() {
+				if i, ok := ref.(*ssa.If); ok {
+					iff = i
+				}
+			}
+			if iff == nil {
+				r.undecidedP([]string{"C16"}, key, c.posStr(instrPos(cut)), "the comparison does not decide a branch")
+				continue
+			}
+			// which edge means "limit reached": numReconciled >= size, or size <= numReconciled
+			rsLeft := false
+			if a, ok := isLoad(cut.X); ok {
+				if _, f, ok := fieldOf(a); ok && f == "IncrementalRoundSize" {
+					rsLeft = true
+				}
+			}
+			onTrue := cut.Op == token.GEQ || cut.Op == token.GTR || cut.Op == token.EQL
+			if rsLeft {
+				onTrue = cut.Op == token.LEQ || cut.Op == token.LSS || cut.Op == token.EQL
+			}
+			limit := iff.Block().Succs[0]
+			if !onTrue {
+				limit = iff.Block().Succs[1]
+			}
+			marked := false
+			for _, in := range limit.Instrs {
+				st, ok := in.(*ssa.Store)
+				if !ok {
+					continue
+				}
+				switch a := st.Addr.(type) {
+				case *ssa.FieldAddr:
+					if tn, f, ok := fieldOf(a); ok && tn == "incremental" && f != "numReconciled" {
+						marked = true
+						cutField = f
+					}
+				case *ssa.FreeVar:
+					if !strings.HasPrefix(a.Name(), "jump$") {
+						marked = true
+					}
+				case *ssa.Alloc:
+					if !strings.HasPrefix(a.Comment, "jump$") {
+						marked = true
+					}
+				}
+			}
+			r.checkP([]string{"C16"}, marked, key, c.posStr(instrPos(cut)), "the exit taken at the round-size limit records that the stream was not exhausted", "the loop leaves at the round-size limit exactly like at the end of the stream: run() publishes the revision it stopped at as attempted, although objects left over can carry older changes (another reconciler's status write re-stamps an object and moves it behind younger ones) - WaitUntilReconciled(rev) returns without error before Update was ever called for a change <= rev")
+		}
+		if cutField != "" {
+			if run := c.fnByName("reconciler.(incremental).run"); run != nil {
+				tested := false
+				for _, ia := range allInstrs(run) {
+					iff, ok := ia.In.(*ssa.If)
+					if !ok {
+						continue
+					}
+					cond, _ := stripNot(iff.Cond, true)
+					if _, ok := loadOfField(cond, "incremental", cutField); ok {
+						tested = true
+					}
+				}
+				r.checkP([]string{"C16"}, tested, "reconciler.(incremental).run|a cut round does not publish the revision it stopped at", c.posStr(run.Pos()), "run() branches on incremental."+cutField+" before returning the round's revision", "run() never looks at incremental."+cutField+": the revision a cut round stopped at is published as attempted and WaitUntilReconciled returns before older changes of left-over objects were attempted")
+			}
+		}
+	}
+	// the low watermark is "the revision of the oldest change among the failed ones": what commitStatus
+	// records for a failed update is opResult.rev, the revision of the object version this reconciler
+	// observed - any later write to the object, including the status write of another reconciler of
+	// the same object, has already moved that revision past the user's change
+	if cs := c.fnByName("reconciler.(incremental).commitStatus"); cs != nil {
+		for i, call := range callsIn(c, cs, "reconciler.(retries).Add") {
+			if len(call.Call.Args) < 4 {
+				continue
+			}
+			_, observed := loadOfField(call.Call.Args[3], "opResult", "rev")
+			if fl, ok := call.Call.Args[3].(*ssa.Field); ok {
+				if tn, f, _ := fieldOf(fl); tn == "opResult" && f == "rev" {
+					observed = true
+				}
+			}
+			r.checkP([]string{"C16"}, !observed, fmt.Sprintf("reconciler.(incremental).commitStatus|the low watermark of a failed update is the revision of the change#%d", i+1), c.posStr(instrPos(call)), "the origin revision does not come from the observed version's revision", "the origin revision recorded for a failed update is the revision of the object version the reconciler observed; with several reconcilers on one object (StatusSet) the other reconciler's status write gives the object a newer revision before this one sees it, so the reported retry low watermark lies past the user's change: a caller waiting until revision and low watermark are both past its change is told it succeeded while the object is in Error awaiting retry")
+		}
+	}
+	// the configuration is rejected when the maximum backoff is below the minimum: Duration() caps at
+	// the maximum, so every retry would come sooner than the configured minimum
+	if v := c.fnByName("reconciler.(config).validate"); v != nil {
+		related := false
+		for _, ia := range allInstrs(v) {
+			bo, ok := ia.In.(*ssa.BinOp)
+			if !ok {
+				continue
+			}
+			switch bo.Op {
+			case token.LSS, token.GTR, token.LEQ, token.GEQ:
+			default:
+				continue
+			}
+			fld := func(v ssa.Value) string {
+				if a, ok := isLoad(v); ok {
+					if _, f, ok := fieldOf(a); ok {
+						return f
+					}
+				}
+				if fl, ok := v.(*ssa.Field); ok {
+					if _, f, ok := fieldOf(fl); ok {
+						return f
+					}
+				}
+				return ""
+			}
+			x, y := fld(bo.X), fld(bo.Y)
+			if (x == "RetryBackoffMinDuration" && y == "RetryBackoffMaxDuration") || (y == "RetryBackoffMinDuration" && x == "RetryBackoffMaxDuration") {
+				for _, ref := range *bo.Referrers() {
+					if _, ok := ref.(*ssa.If); ok {
+						related = true
+					}
+				}
+			}
+		}
+		r.checkP([]string{"C16"}, related, "reconciler.(config).validate|maximum backoff not below the minimum", c.posStr(v.Pos()), "validate compares RetryBackoffMaxDuration with RetryBackoffMinDuration", "validate accepts RetryBackoffMaxDuration < RetryBackoffMinDuration: the backoff is capped by the maximum, so every retry comes after the maximum - sooner than the configured minimum backoff")
+	} else {
+		r.anchorMissing("reconciler.(config).validate")
 	}
 }
 
